@@ -120,6 +120,12 @@ type c04Harness struct {
 	inputsExecuted atomic.Int64
 	secondLevel    atomic.Int64
 	secondShifted  atomic.Int64
+	lifeDepth      int  // object-lifetime family: events per sequence
+	lifeDeep       bool // ... with single-input spend notifications
+	lifeSeqs       atomic.Int64
+	lifeCreates    atomic.Int64
+	lifeEvents     atomic.Int64
+	lifeClasses    *evid.Counter
 	cheaterTxs     atomic.Int64
 	storeTrips     atomic.Int64
 	heightsChecked atomic.Int64
@@ -165,6 +171,13 @@ type c04World struct {
 	checked [2]uint64
 	alt     [2]*channeldb.DB
 	brar    [2]*BreachArbitrator
+	// brarLife: the arbitrators of the object-lifetime family. Same signer and
+	// sweep script, fee estimate at the relay floor: fee estimation is not part of
+	// the property, and at the floor every non-dust output pays for its own sweep,
+	// so a sequence that leaves one small second-level output alone never makes
+	// createJusticeTx fail for a fee reason (at the 12 500 sat/kw of brar it does:
+	// "transaction output has negative value").
+	brarLife [2]*BreachArbitrator
 	reloads int
 	// second handles (the chain watcher's): one per distinct durable state the
 	// victim's DB went through, loaded when that state was current
@@ -213,10 +226,15 @@ func (h *c04Harness) newWorld(sp *c04Space) (*c04World, error) {
 			w.Chan(p).State().Db = cw.alt[p].ChannelStateDB()
 		}
 	}
-	for v := 0; v < 2; v++ {
-		cw.brar[v] = NewBreachArbitrator(&BreachConfig{
+	for v := 0; v < 4; v++ {
+		fee, v := chainfee.SatPerKWeight(12500), v
+		dst := &cw.brar[v%2]
+		if v >= 2 {
+			fee, v, dst = chainfee.FeePerKwFloor, v-2, &cw.brarLife[v-2]
+		}
+		*dst = NewBreachArbitrator(&BreachConfig{
 			CloseLink: func(*wire.OutPoint, ChannelCloseType) {},
-			Estimator: chainfee.NewStaticEstimator(12500, 0),
+			Estimator: chainfee.NewStaticEstimator(fee, 0),
 			GenSweepScript: func() fn.Result[lnwallet.AddrWithKey] {
 				return fn.Ok(lnwallet.AddrWithKey{
 					DeliveryAddress: append([]byte{0x00, 0x14}, bytes.Repeat([]byte{0x42}, 20)...),
@@ -829,6 +847,9 @@ func (c *c04World) evalBr(v int, h uint64, s *c04Snap, chanPoint wire.OutPoint, 
 		}
 		c.secondLevel(v, h, role, s, base, prev, want, all, false)
 	}
+	// (6) the same retribution object across the breach arbitrator's whole
+	// publish / wait-for-spend / re-create loop.
+	c.lifetime(v, h, role, s, base, prev, want)
 }
 
 // ---- second handles: the chain watcher's own OpenChannel ------------------------
@@ -1226,6 +1247,241 @@ func (c *c04World) secondLevel(v int, h uint64, role string, s *c04Snap, base []
 	c.justice(v, h, role, label, label, ri.breachedOutputs, prev2, want2)
 }
 
+// ---- object-lifetime family: one retributionInfo, many createJusticeTx calls -----
+//
+// exactRetribution keeps ONE retributionInfo alive per breach: it builds the
+// justice transactions (createJusticeTx signs through the breachedOutput objects),
+// waits for any breached output to be spent, folds the spends into the SAME object
+// (updateBreachInfo: convert an HTLC output to the second level in place, drop
+// outputs that were swept and compact the slice by value copy) and builds the
+// justice transactions AGAIN from it - as often as spends arrive. Whatever the
+// objects carry from one call to the next (witness generators, sign descriptors
+// handed out by pointer, prev-output fetchers, slots of the compacted slice) is
+// state of the computation. Family: every SEQUENCE of spend events, up to a depth
+// bound, applied to one object with a createJusticeTx call between any two events
+// (as exactRetribution does), and the transactions built after the last event are
+// judged by the script interpreter like a single-shot construction.
+//
+// Event alphabet at a state (enabledness from a UTXO model of the cheater's
+// transactions, not from lnd's bookkeeping):
+//   conv:k         the cheater's k-th second-level tx confirms (its HTLC output is unspent)
+//   own:<variant>  one of the victim's OWN justice transactions built by the LAST
+//                  createJusticeTx call confirms, all its inputs reported in one
+//                  batch: commit / htlcs / second:i / all
+//   own1:j         (deep alphabet) only input j of the last spend-all is reported
+//                  (spend notifications of one transaction may arrive one by one)
+// Oracle (scenario independent): after every sequence the spend-all variant claims
+// exactly the unspent non-anchor outputs of the cheater's transactions (none left
+// out, none already spent), every input of every variant spends an existing,
+// unspent output and is accepted by txscript against that real output; once
+// everything is swept the object holds no outputs.
+
+func (c *c04World) lifetime(v int, h uint64, role string, s *c04Snap, base []breachedOutput,
+	prev map[wire.OutPoint]*wire.TxOut, want map[wire.OutPoint]bool) {
+
+	depth := c.h.lifeDepth
+	if depth <= 0 {
+		return
+	}
+	stack := [][]string{{}}
+	for len(stack) > 0 {
+		seq := stack[len(stack)-1]
+		stack = stack[:len(stack)-1]
+		before := len(c.raised)
+		en := c.lifeRun(v, h, role, s, base, prev, want, seq)
+		if len(c.raised) > before || len(seq) >= depth {
+			// a defective state is reported once, not through all its extensions
+			continue
+		}
+		for i := len(en) - 1; i >= 0; i-- {
+			stack = append(stack, append(append([]string{}, seq...), en[i]))
+		}
+	}
+}
+
+// lifeVariant returns the named variant of a justice tx set.
+func lifeVariant(txs *justiceTxVariants, name string) *justiceTxCtx {
+	switch {
+	case txs == nil:
+		return nil
+	case name == "all":
+		return txs.spendAll
+	case name == "commit":
+		return txs.spendCommitOuts
+	case name == "htlcs":
+		return txs.spendHTLCs
+	case strings.HasPrefix(name, "second:"):
+		i, err := strconv.Atoi(name[len("second:"):])
+		if err == nil && i < len(txs.spendSecondLevelHTLCs) {
+			return txs.spendSecondLevelHTLCs[i]
+		}
+	}
+	return nil
+}
+
+// lifeRun executes one event sequence on a fresh retribution object (prefix
+// states were judged when the prefix was the sequence; here every step is
+// executed and the final state is judged). It returns the events enabled in the
+// final state.
+func (c *c04World) lifeRun(v int, h uint64, role string, s *c04Snap, base []breachedOutput,
+	prev map[wire.OutPoint]*wire.TxOut, want map[wire.OutPoint]bool, seq []string) []string {
+
+	ri := &retributionInfo{commitHash: s.tx.TxHash(), breachHeight: c04BreachHeight, breachedOutputs: c04CopyOutputs(base)}
+	prev2 := make(map[wire.OutPoint]*wire.TxOut, len(prev)+4)
+	for k, o := range prev {
+		prev2[k] = o
+	}
+	want2 := make(map[wire.OutPoint]bool, len(want))
+	for k := range want {
+		want2[k] = true
+	}
+	spent := map[wire.OutPoint]bool{}
+	kinds := []string{"create"}
+	c.h.lifeSeqs.Add(1)
+
+	create := func() *justiceTxVariants {
+		c.h.lifeCreates.Add(1)
+		txs, err := c.brarLife[v].createJusticeTx(ri.breachedOutputs)
+		if err != nil || txs == nil || txs.spendAll == nil {
+			c.violate("justice-tx-not-built", role+":life:"+strings.Join(kinds, ">"), fmt.Sprintf("height %d: createJusticeTx on the live retribution after %v failed: %v", h, seq, err))
+			return nil
+		}
+		return txs
+	}
+	find := func(op wire.OutPoint) int {
+		for i := range ri.breachedOutputs {
+			if ri.breachedOutputs[i].outpoint == op {
+				return i
+			}
+		}
+		return -1
+	}
+	txs := create()
+	if txs == nil {
+		return nil
+	}
+	for _, ev := range seq {
+		var spends []spend
+		switch {
+		case strings.HasPrefix(ev, "conv:"):
+			k, _ := strconv.Atoi(ev[5:])
+			sl := s.second[k]
+			idx := find(sl.htlcOut)
+			if idx < 0 {
+				c.violate("harness-life-event", role, fmt.Sprintf("height %d: %s of %v: HTLC output %v not in the live retribution", h, ev, seq, sl.htlcOut))
+				return nil
+			}
+			th := sl.tx.TxHash()
+			op := sl.htlcOut
+			spends = append(spends, spend{index: idx, detail: &chainntnfs.SpendDetail{
+				SpentOutPoint: &op, SpenderTxHash: &th, SpendingTx: sl.tx, SpenderInputIndex: 0, SpendingHeight: c04BreachHeight + 1,
+			}})
+			for oi, o := range sl.tx.TxOut {
+				prev2[wire.OutPoint{Hash: th, Index: uint32(oi)}] = o
+			}
+			spent[op] = true
+			delete(want2, op)
+			want2[wire.OutPoint{Hash: th, Index: 0}] = true
+			if sl.incoming {
+				kinds = append(kinds, "conv-success")
+			} else {
+				kinds = append(kinds, "conv-timeout")
+			}
+		case strings.HasPrefix(ev, "own:"), strings.HasPrefix(ev, "own1:"):
+			name, only := ev[4:], -1
+			if strings.HasPrefix(ev, "own1:") {
+				name = "all"
+				only, _ = strconv.Atoi(ev[5:])
+			}
+			jt := lifeVariant(txs, name)
+			if jt == nil || jt.justiceTx == nil {
+				c.violate("harness-life-event", role, fmt.Sprintf("height %d: %s of %v: no such justice tx", h, ev, seq))
+				return nil
+			}
+			tx := jt.justiceTx
+			th := tx.TxHash()
+			kind := "swept-" + strings.TrimRight(name, ":0123456789")
+			for i, in := range tx.TxIn {
+				if only >= 0 && i != only {
+					continue
+				}
+				idx := find(in.PreviousOutPoint)
+				if idx < 0 {
+					continue // judged as a defect when this tx was built
+				}
+				if only >= 0 {
+					kind = fmt.Sprintf("swept-one(%v)", ri.breachedOutputs[idx].witnessType)
+				}
+				op := in.PreviousOutPoint
+				spends = append(spends, spend{index: idx, detail: &chainntnfs.SpendDetail{
+					SpentOutPoint: &op, SpenderTxHash: &th, SpendingTx: tx, SpenderInputIndex: uint32(i), SpendingHeight: c04BreachHeight + 2,
+				}})
+				spent[op] = true
+				delete(want2, op)
+			}
+			kinds = append(kinds, kind)
+		default:
+			c.violate("harness-life-event", role, fmt.Sprintf("unknown event %q", ev))
+			return nil
+		}
+		c.h.lifeEvents.Add(1)
+		updateBreachInfo(ri, spends)
+		if len(ri.breachedOutputs) == 0 {
+			txs = nil
+			break
+		}
+		if txs = create(); txs == nil {
+			return nil
+		}
+	}
+	short := "life:" + strings.Join(kinds, ">")
+	label := fmt.Sprintf("one retribution object: create, then %v each followed by a re-creation", seq)
+	c.h.lifeClasses.Add(c.sp.P.Type + "|" + short)
+	if txs == nil {
+		// everything the object held was reported swept
+		if len(want2) > 0 {
+			var missing []string
+			for op := range want2 {
+				missing = append(missing, fmt.Sprintf("%v(%d sat)", op, prev2[op].Value))
+			}
+			sort.Strings(missing)
+			c.violate("output-not-punished", role+":"+short, fmt.Sprintf("height %d (%s): the retribution holds no outputs any more but these are unspent: %v", h, label, missing))
+		}
+		if c.verbose {
+			fmt.Printf("INFO     lifetime %v: nothing left to sweep\n", seq)
+		}
+		return nil
+	}
+	c.judgeTxs(v, h, role, short, label, ri.breachedOutputs, txs, prev2, want2, spent)
+	if c.verbose {
+		fmt.Printf("INFO     lifetime %v: %d outputs live, judged\n", seq, len(ri.breachedOutputs))
+	}
+
+	// events enabled now
+	var en []string
+	for k, sl := range s.second {
+		if !spent[sl.htlcOut] && find(sl.htlcOut) >= 0 {
+			en = append(en, fmt.Sprintf("conv:%d", k))
+		}
+	}
+	names := []string{"commit", "htlcs"}
+	for i := range txs.spendSecondLevelHTLCs {
+		names = append(names, fmt.Sprintf("second:%d", i))
+	}
+	names = append(names, "all")
+	for _, n := range names {
+		if jt := lifeVariant(txs, n); jt != nil && jt.justiceTx != nil {
+			en = append(en, "own:"+n)
+		}
+	}
+	if c.h.lifeDeep && len(txs.spendAll.justiceTx.TxIn) > 1 {
+		for i := range txs.spendAll.justiceTx.TxIn {
+			en = append(en, fmt.Sprintf("own1:%d", i))
+		}
+	}
+	return en
+}
+
 func c04WitnessTypes(outs []breachedOutput) []string {
 	var o []string
 	for i := range outs {
@@ -1281,6 +1537,16 @@ func (c *c04World) justice(v int, h uint64, role, short, label string, outs []br
 		c.violate("justice-tx-not-built", role+":"+label, fmt.Sprintf("height %d: createJusticeTx failed: %v", h, err))
 		return
 	}
+	c.judgeTxs(v, h, role, short, label, outs, txs, prev, want, nil)
+}
+
+// judgeTxs judges one set of justice transaction variants: every input of every
+// variant is executed against the real outputs; the spend-all variant must claim
+// every unspent non-anchor output; with a UTXO model (spent != nil) no variant may
+// spend an output that is already spent.
+func (c *c04World) judgeTxs(v int, h uint64, role, short, label string, outs []breachedOutput, txs *justiceTxVariants,
+	prev map[wire.OutPoint]*wire.TxOut, want map[wire.OutPoint]bool, spent map[wire.OutPoint]bool) {
+
 	wt := map[wire.OutPoint]string{}
 	for i := range outs {
 		wt[outs[i].outpoint] = fmt.Sprint(outs[i].witnessType)
@@ -1304,6 +1570,10 @@ func (c *c04World) justice(v int, h uint64, role, short, label string, outs []br
 			w := wt[in.PreviousOutPoint]
 			if _, ok := prev[in.PreviousOutPoint]; !ok {
 				c.violate("justice-spends-nonexistent-output", role+":"+w+":"+name+":"+short, fmt.Sprintf("height %d (%s): %s input %d (%s) spends %v, which is not an output of the cheater's transactions", h, label, nt.n, i, w, in.PreviousOutPoint))
+				continue
+			}
+			if spent[in.PreviousOutPoint] {
+				c.violate("justice-spends-already-spent-output", role+":"+w+":"+name+":"+short, fmt.Sprintf("height %d (%s): %s input %d (%s) spends %v, which an earlier confirmed transaction of this history already spent", h, label, nt.n, i, w, in.PreviousOutPoint))
 				continue
 			}
 			c.h.inputsExecuted.Add(1)
@@ -1493,7 +1763,15 @@ func TestC04(t *testing.T) {
 	run := evid.Start("C04", "exploration")
 	h := &c04Harness{run: run, samples: evid.NewSamples(6), classes: evid.NewCounter(), wtypes: evid.NewCounter(),
 		outcome: evid.NewCounter(), lattice: evid.NewCounter(), handled: map[string]bool{},
-		watchOutcome: evid.NewCounter(), watchCells: evid.NewCounter()}
+		watchOutcome: evid.NewCounter(), watchCells: evid.NewCounter(), lifeClasses: evid.NewCounter(), lifeDepth: 2}
+	if run.Thorough() {
+		h.lifeDepth, h.lifeDeep = 3, true
+	}
+	if s := os.Getenv("VERIF_C04_LIFE_DEPTH"); s != "" {
+		if n, err := strconv.Atoi(s); err == nil {
+			h.lifeDepth = n
+		}
+	}
 	// one retribution store (bbolt) for the persist-and-read-back step
 	dir := os.Getenv("VERIF_SCRATCH")
 	if dir == "" {
@@ -1712,6 +1990,13 @@ func TestC04(t *testing.T) {
 		"second_level_shifted_index":                      h.secondShifted.Load(),
 		"cheater_second_level_txs_validated":              h.cheaterTxs.Load(),
 		"retribution_store_round_trips":                   h.storeTrips.Load(),
+		"lifetime_event_depth":                            h.lifeDepth,
+		"lifetime_single_input_notifications":             h.lifeDeep,
+		"lifetime_sequences_judged":                       h.lifeSeqs.Load(),
+		"lifetime_create_justice_tx_calls":                h.lifeCreates.Load(),
+		"lifetime_events_applied":                         h.lifeEvents.Load(),
+		"lifetime_sequence_classes_hit":                   h.lifeClasses.Distinct(),
+		"lifetime_sequence_classes":                       h.lifeClasses.Map(),
 		"checks_skipped_on_replayed_prefix":               h.skippedReplay.Load(),
 		"cheater_snapshots_distinct":                      h.snapshots.Load(),
 		"justice_verifications_distinct":                  h.memoMisses.Load(),
@@ -1737,6 +2022,7 @@ func TestC04(t *testing.T) {
 		"fee/weight estimation of the justice tx and BIP68 confirmation depth are not judged; only script validity, outpoints and amounts",
 		"second-handle family: the chain watcher is driven through handleCommitSpend (what closeObserver calls once the spend has its confirmations); the confirmation/reorg state machine in front of it is not part of this property. The watcher's handles persist through a second channeldb handle on the victim's backend whose write transactions are executed and rolled back (the watcher's MarkBorked must not leak into the explored history); each delivery runs on OpenChannel.Copy() of the handle as loaded",
 		"second-handle family, load-point alphabet: every distinct durable state of the victim's database ('loads=write' spaces) or world creation + every reload + every newly stored revocation ('loads=tail' spaces); delivery times: right after the revocation and after every reload on every explored history, at the end of the history on every history ('loads=write') or on the eager history of the space ('loads=tail'). Load points and delivery points are taken on the history by which the explorer reaches a state (the handles are not part of the canonical key)",
+		"object-lifetime family: per distinct (victim, revoked commitment, retribution) job one retributionInfo object is driven through every sequence of at most lifetime_event_depth spend events (cheater's second-level tx k confirms; one of the victim's own justice tx variants built by the last createJusticeTx confirms, reported as one batch; thorough: single inputs of the last spend-all reported alone) with a createJusticeTx call before the first and after every event; enabledness and the expected input set come from a UTXO model of the cheater's transactions; second-level txs unshifted (index 0) in this family",
 		"noRevLogAmtData worlds: both parties persist through a second channeldb handle on the same backend opened with OptionNoRevLogAmtData(true)")
 	if code := run.Finish(cov); code != 0 {
 		os.Exit(code)
